@@ -647,9 +647,16 @@ def backoff_iter(start, stop, count=None, factor=2.0, jitter=False):
     if stop < start:
         raise ValueError('expected stop >= start, not %r' % stop)
     if count is None:
-        denom = start if start else 1
-        count = 1 + math.ceil(math.log(stop/denom, factor))
-        count = count if start else count + 1
+        if factor == 1.0 and start < stop:
+            raise ValueError('expected factor > 1.0 to reach stop when count'
+                             ' is not given, not %r' % factor)
+        # Count the values the loop below goes through on its way from
+        # start to stop. (A logarithm of stop/start can land on the
+        # wrong side of an integer, and there is none for start=0.)
+        count, cur, prev = 1, start, -1.0
+        while prev < cur < stop:
+            prev, cur = cur, (cur * factor if cur else 1.0)
+            count += 1
     if count != 'repeat' and count < 0:
         raise ValueError('count must be positive or "repeat", not %r' % count)
     if jitter:
